@@ -185,5 +185,8 @@ class QuadTessellate(AbstractTessellate):
         # Call parent function
         super(QuadTessellate, self).tessellate(points, **kwargs)
 
+        # Trim curves are not used by the quadrilateral mesh generator
+        kwargs.pop('trims', None)
+
         # Apply default triangular mesh generator function
         self._vertices, self._faces = self._tsl_func(points, **kwargs)
